@@ -189,7 +189,8 @@ def channels(check, prog):
     res = it.analyze(q)
     v = res.ret
     loops = [l for l in it.loops.values() if l['func'] == q]
-    check.floor('channel loops', len(loops), 1)
+    check.need('channel loops', len(loops), 1, 'S2-channel-loop', 'channel loop',
+               'the multi-colour calculation iterates over the channels', loc)
     if not loops:
         return
     lp = loops[0]
